@@ -129,7 +129,7 @@ func (backupManager *BackupManager) DoNativeBackup() error {
 	backupFilename := backupManager.backupLocation + string(os.PathSeparator) + "datahub-backup.kv"
 	var file *os.File
 	if backupManager.fileExists(backupFilename) {
-		file, _ = os.Open(backupFilename)
+		file, _ = os.OpenFile(backupFilename, os.O_APPEND|os.O_WRONLY, 0o600)
 	} else {
 		file, _ = os.Create(backupFilename)
 	}
